@@ -47,7 +47,7 @@ def handleSAdd (_c : Ctx) (cmd : List Bytes) : Prog Res :=
   | _ :: key :: elems =>
     .call (.keysExist [key]) fun (ex : List Bool) =>
     if !(ex.headD false) then
-      setOrErr [(key, .set 0 (setAdd [] elems).1)] (.ret (.ok (intReply elems.length)))
+      setOrErr [(key, .set 0 (setAdd [] elems).1)] (.ret (.ok (intReply (setAdd [] elems).2)))
     else
       .call (.getValues [key]) fun (vs : List Val) =>
       match asSet? (vs.headD .nil) with
@@ -222,7 +222,8 @@ def inter2 (limit : Int) (a c : List Bytes) : List Bytes :=
   let r := a.filter c.contains
   if limit > 0 then r.take limit.toNat else r
 
-/-- set.Intersection with limit 0 (divide and conquer; a single operand is returned as is) -/
+/-- set.Intersection with limit 0 (divide and conquer; a single operand is returned as is); with a limit the
+    halves are still computed in full, see `sinterTail` -/
 def interAll : Nat → List (List Bytes) → List Bytes
   | _, [] => []
   | _, [a] => a
@@ -257,11 +258,14 @@ def sinterStore (src dest : Bytes) (sets : List (Nat × List Bytes)) (res : List
 def sinterTail (mode : Nat) (limit : Int) (src dest : Bytes) (sets : List (Nat × List Bytes)) : Prog Res :=
   if sets.isEmpty && mode != 1 then .ret (.err (b "not enough sets in the keys provided"))
   else if sets.isEmpty then .panic "Intersection of no sets (unbounded recursion)"
-  else if mode == 2 && limit > 0 && sets.length ≥ 3 then .unmod "SINTERCARD LIMIT over 3+ sets depends on member iteration order"
   else if mode == 0 then .ret (setArrReply (interAll sets.length (sets.map (·.2))))
   else if mode == 2 then
-    .ret (.ok (intReply (if sets.length == 2 then inter2 limit (sets.getD 0 (0, [])).2 (sets.getD 1 (0, [])).2
-                          else interAll sets.length (sets.map (·.2))).length))
+    -- Intersection(limit, …): the halves of three or more operands are intersected in full (limit 0) and only
+    -- the two-operand loop at the top stops once `limit` members are found; a single operand comes back whole,
+    -- so the handler caps the cardinality it reports as well
+    let full := interAll sets.length (sets.map (·.2))
+    let card := (if limit > 0 && sets.length ≥ 2 then full.take limit.toNat else full).length
+    .ret (.ok (intReply (if limit > 0 && (card : Int) > limit then limit else card)))
   else sinterStore src dest sets (interAll sets.length (sets.map (·.2)))
 
 def sinterReads (mode : Nat) (cmd : List Bytes) : List Bytes :=
